@@ -40,5 +40,25 @@ def scenario_from_witness(w):
     return {"violated": rows != exp, "csv_rows": rows, "expected": exp, "entries": entries}
 
 
+def small_domain():
+    """every plot log with 3 tags, each with 0..2 values at times from {1,2,3} (values 0.0 / 5.0 / 7.5, so that falsy values occur):
+    real export against the sample-and-hold written from the statement, cell by cell (every row has one cell per tag)"""
+    import itertools
+    times = (1.0, 2.0, 3.0)
+    per_tag = [[]] + [[(t, v)] for t in times for v in (0.0, 5.0)] + \
+        [[(t1, v1), (t2, 7.5)] for t1, t2 in itertools.combinations(times, 2) for v1 in (0.0, 5.0)]
+    n = 0
+    for a, b, c in itertools.product(per_tag, repeat=3):
+        if not (a or b or c):
+            continue
+        n += 1
+        entries = [("A", list(a)), ("B", list(b)), ("C", list(c))]
+        rows, exp = run(entries)
+        if rows != exp:
+            return {"violated": True, "entries": entries, "csv_rows": rows, "expected": exp}
+    return {"violated": False, "plot_logs_checked": n}
+
+
 if __name__ == "__main__":
     print(scenario_late_start())
+    print(small_domain())
